@@ -198,7 +198,7 @@ def build_module(rng, tok: Tok, gated: set, common_only: bool, n_elems: int, nam
                 # a documented class inside the class, with attributes of the same names as the outer class and a method
                 nattrs = [f"at{j}" for j in range(rng.randint(1, 2))]
                 nested = (f"In{tag}x{i}", nattrs, model("class", [], False, nattrs), [("run", ["m0"], model("method", ["m0"], True))])
-            elems.append(("class", cname, cm, {"cparams": cparams, "attrs": attrs, "init": im, "methods": methods, "has_ctor": bool(cparams) or doc_on_init or rng.random() < 0.5, "nested": nested}))
+            elems.append(("class", cname, cm, {"cparams": cparams, "attrs": attrs, "init": im, "methods": methods, "has_ctor": bool(cparams) or doc_on_init or rng.random() < 0.5, "nested": nested, "abstract": rng.random() < 0.25}))
     mod_model = DocModel()
     mod_model.summary = tok.line(rng, "m")
     mod_model.body = [tok.line(rng, "n")]
@@ -209,12 +209,13 @@ def build_module(rng, tok: Tok, gated: set, common_only: bool, n_elems: int, nam
         out = [pydoc(mod_model.render("plaintext" if True else style), ""), "\n"]
         # further bare string statements at module level (a documented constant, a block used as comment): they are no
         # module docstring and belong to no element of the stubs
-        out.append(f'DEFAULT_{tag.upper()} = 4\n"""{extra_strings[0]}"""\n\n')
+        out.append(f'from abc import ABC\n\nDEFAULT_{tag.upper()} = 4\n"""{extra_strings[0]}"""\n\n')
         for kind, name, m, ex in elems:
             if kind == "func":
                 out.append(f"def {name}({', '.join(p + ': int' for p in ex['params'])}) -> int:\n{pydoc(m.render(style), '    ')}    return 1\n\n\n")
             else:
-                out.append(f"class {name}:\n{pydoc(m.render(style), '    ')}")
+                # (an abstract class is written without constructor; what its docstring says about the parameters stays)
+                out.append(f"class {name}{'(ABC)' if ex.get('abstract') else ''}:\n{pydoc(m.render(style), '    ')}")
                 for a in ex["attrs"]:
                     out.append(f"    {a}: int = 0\n")
                 if ex.get("nested"):
